@@ -15,7 +15,9 @@
                                  incl. the empty one, member_to_parent()/parent_to_member().
   specs/ContainersExtStash.tla   ItemStash with the REAL should_gc() thresholds (an entry is a block of 1000 / 999 / 1
                                  items), buffer growth by doubling, clear() and reuse, used_memory() against the capacity
-                                 the spec predicts.
+                                 the spec predicts.  Three generator configurations: mixed histories, histories of blocks
+                                 only (automatic collection at the start / in the middle of a block, exactly at 10000
+                                 removed items), and "fill 64 units, then remove" where the removed/live ratio decides.
 Binding: harness/containersext_replay.cpp replays every exported history on the real classes, once built with -DNDEBUG
 and once with the library's assertions enabled.  Violations carry signatures starting with "ext:"."""
 import json
@@ -54,8 +56,8 @@ MC_RUNS = [  # (module, quick cfg, thorough cfg, label, actions that must have b
 SIM_RUNS = [  # (module, cfg, kind, behaviours quick, behaviours thorough, depth)
     ("ContainersExtDense", "GenContainersExtDense.cfg", "xdense", 120, 2500, 15),
     ("ContainersExtSmall", "GenContainersExtSmall.cfg", "xsmall", 150, 3000, 15),
-    ("ContainersExtNwr", "GenContainersExtNwr_dense.cfg", "xnwr", 60, 800, 15),
-    ("ContainersExtNwr", "GenContainersExtNwr_small.cfg", "xnwr", 60, 800, 15),
+    ("ContainersExtNwr", "GenContainersExtNwr_dense.cfg", "xnwr", 90, 800, 15),
+    ("ContainersExtNwr", "GenContainersExtNwr_small.cfg", "xnwr", 90, 800, 15),
     ("ContainersExtRelMap", "GenContainersExtRelMap.cfg", "xrelmap", 300, 6000, 9),
     ("ContainersExtStash", "GenContainersExtStash.cfg", "xstash", 100, 1500, 23),
     ("ContainersExtStash", "GenContainersExtStashAuto.cfg", "xstash", 400, 6000, 47),
@@ -240,7 +242,7 @@ def _replay(ctx, cases, builds=("ndebug", "assert")):
 
     def one(b):
         t0 = time.time()
-        res = vlib.replay_cases(bins[b], cases, timeout=2400, nproc=max(2, vlib.NCPU // len(builds)))
+        res = vlib.replay_cases(bins[b], cases, timeout=2400, nproc=max(2, vlib.NCPU // len(builds)), env={"VH_CASE_TIMEOUT": "120"})
         vlib.log("[C15ext] %d cases replayed on the %s build in %.1fs" % (len(cases), b, time.time() - t0))
         return res
     for b, res in zip(builds, vlib.parallel(*[(lambda b=b: one(b)) for b in builds])):
